@@ -357,8 +357,9 @@ Definition hex_decode (cs : list N) : option bytes :=
   if N.even (len cs) then hex_pairs cs else None.            (* OddLength is checked first *)
 
 (* ---------- the legacy layouts as encoders (specification of the wire format) ---------- *)
-Definition byte_at (n : N) (k : N) : N := (n / 256 ^ k) mod 256.
-Definition enc64 (n : N) : bytes := map (byte_at n) [7; 6; 5; 4; 3; 2; 1; 0].
+Fixpoint enc_be (k : nat) (n : N) : bytes :=          (* the k low bytes of n, most significant first *)
+  match k with O => [] | S k' => enc_be k' (n / 256) ++ [n mod 256] end.
+Definition enc64 (n : N) : bytes := enc_be 8 n.          (* u64::to_be_bytes *)
 Definition e_params (p : params) : bytes := enc64 (p_m p) ++ enc64 (p_k p) ++ enc64 (p_phi p).
 Definition e_ssig (s : ssig) : bytes :=
   enc64 (len (ss_indexes s)) ++ flat_map enc64 (ss_indexes s) ++ ss_sigma s ++ enc64 (ss_signer s).
